@@ -1365,7 +1365,7 @@ func conv(i *interpreter, t_dst, t_src types.Type, x value) value {
 			// gosym: returning the zero value is silently wrong for the one use that
 			// matters here, the round trip *T -> unsafe.Pointer -> *T of sync/atomic's
 			// Pointer[T] (sync.Map sits on it: every Load missed, found when a seeded
-			// change used a sync.Map, DESIGN.md 9.2c). Every pointer of this interpreter
+			// change used a sync.Map, DESIGN.md 9.8). Every pointer of this interpreter
 			// is a *value, so the round trip is the identity. A cast to a different T is
 			// not meaningful, but it no longer passes silently either: the first use of
 			// the cell through the wrong type is a failed type assertion inside the
